@@ -264,11 +264,14 @@ void ezc3d::ParametersNS::Parameters::write(std::fstream &f) const
     f.seekg(actualPos);
 
     // Go back to data start blank space and write the actual position
+    // (a file loaded without a POINT:DATA_START parameter has no such blank space: position 0 is the header)
     actualPos = f.tellg();
-    f.seekg(dataStartPosition);
-    nBlocksToNext = int(actualPos)/512 + 1; // DATA_START is the 1-based number of the first block of data
-    f.write(reinterpret_cast<const char*>(&nBlocksToNext), ezc3d::BYTE);
-    f.seekg(actualPos);
+    if (dataStartPosition != std::streampos(0)){
+        f.seekg(dataStartPosition);
+        nBlocksToNext = int(actualPos)/512 + 1; // DATA_START is the 1-based number of the first block of data
+        f.write(reinterpret_cast<const char*>(&nBlocksToNext), ezc3d::BYTE);
+        f.seekg(actualPos);
+    }
 }
 
 size_t ezc3d::ParametersNS::Parameters::parametersStart() const
